@@ -538,6 +538,7 @@ func (harness) Specs(tier string) []seqmc.Spec {
 			deepSpecOf(),
 			mk("{a,b} paths<=3 patterns<=4 (closure)", ab, 3, 4, 16),
 			mk("{a,b,c} paths<=2 patterns<=3 (closure)", []string{"a", "b", "c"}, 2, 3, 16),
+			mk("{a,a-,a.} paths<=2 patterns<=2 (closure)", []string{"a", "a-", "a."}, 2, 2, 16),
 		}
 	}
 	deep := mkExplicit(
@@ -546,7 +547,11 @@ func (harness) Specs(tier string) []seqmc.Spec {
 	deepSpec := seqmc.Spec{Name: "deep sibling leaves (depths 3,4,6) (closure)", Ops: deep.names, Depth: 16, New: func() seqmc.Sys {
 		return &sys{a: deep, t: &ctree.Tree{}, m: map[string]string{}}
 	}}
-	return []seqmc.Spec{mk("{a,b} paths<=3 patterns<=3 (closure)", ab, 3, 3, 16), deepSpec}
+	// element names of which one is a proper prefix of the other, continued by a
+	// character that sorts below the path separator ('-' < '/'): ordering by
+	// elements differs from ordering by joined strings
+	pre := mk("{a,a-} paths<=2 patterns<=2 (closure)", []string{"a", "a-"}, 2, 2, 16)
+	return []seqmc.Spec{mk("{a,b} paths<=3 patterns<=3 (closure)", ab, 3, 3, 16), deepSpec, pre}
 }
 
 func main() { seqmc.Main(harness{}) }
